@@ -282,6 +282,9 @@ func (rn *runner) count(sig string, batch []Item) {
 		if it.S == "S0" {
 			res.Count("items_empty_scope", 1)
 		}
+		if sk.N == "sn0" && it.S != "S0" {
+			res.Count("items_partially_empty_scope", 1)
+		}
 		s := string(it.FV)
 		for _, c := range []string{"cbig", "cmax32", "tpre", "tzero", "tfar", "kmax", "vnan", "vmax", "bdeep", "bempty", "abound", "L3", "L4", "mmx", "dsub"} {
 			if strings.Contains(s, `"`+c+`"`) {
